@@ -136,19 +136,32 @@ def build_harness(outdir, cmds, tags="verif", race=False):
 TUNER_PKGS = ["epd", "tuning", "checksum"]
 
 
-def build_tuner_harness(outdir, scratchdir, cmds):
+def build_tuner_harness(outdir, scratchdir, cmds, with_server=False):
     """The tuner is a separate module with un-fetchable deps; copy the stdlib-only packages
-    into a scratch module of the same name and build our commands inside it."""
-    mod = os.path.join(scratchdir, "tunermod")
+    into a scratch module of the same name and build our commands inside it.
+    with_server: also the server package (unmodified) and app, against stand-ins for the packages that
+    need gRPC / tcell / google-uuid (tuner/stubs: tui update types, shim.NewServer, uuid.New)."""
+    mod = os.path.join(scratchdir, "tunermod-srv" if with_server else "tunermod")
     os.makedirs(mod)
     with open(os.path.join(mod, "go.mod"), "w") as f:
         f.write("module github.com/paulsonkoly/chess-3/tools/tuner\n\ngo 1.25.4\n\n"
                 "require github.com/paulsonkoly/chess-3 v0.0.0\n\n"
                 "replace github.com/paulsonkoly/chess-3 => %s\n" % REPO)
+        if with_server:
+            f.write("\nrequire github.com/google/uuid v0.0.0\n\nreplace github.com/google/uuid => ./stubs/uuid\n")
     shutil.copy(os.path.join(REPO, "go.sum"), os.path.join(mod, "go.sum"))
     for p in TUNER_PKGS:
         shutil.copytree(os.path.join(REPO, "tools", "tuner", p), os.path.join(mod, p),
                         ignore=shutil.ignore_patterns("*_test.go"))
+    if with_server:
+        for p in ("server", "app"):
+            shutil.copytree(os.path.join(REPO, "tools", "tuner", p), os.path.join(mod, p),
+                            ignore=shutil.ignore_patterns("*_test.go"))
+        os.makedirs(os.path.join(mod, "shim"))
+        shutil.copy(os.path.join(REPO, "tools", "tuner", "shim", "shim.go"), os.path.join(mod, "shim", "shim.go"))
+        shutil.copy(os.path.join(VERIF, "tuner", "stubs", "shim", "stub_server.go"), os.path.join(mod, "shim", "stub_server.go"))
+        shutil.copytree(os.path.join(VERIF, "tuner", "stubs", "tui"), os.path.join(mod, "tui"))
+        shutil.copytree(os.path.join(VERIF, "tuner", "stubs", "uuid"), os.path.join(mod, "stubs", "uuid"))
     bins = {}
     for c in cmds:
         shutil.copytree(os.path.join(VERIF, "tuner", c), os.path.join(mod, "verifcmd", c))
